@@ -46,6 +46,8 @@ def pool(design, technique, text):
 CHECKS.update({
  "C11": pool("§8 C11, §5 E-NODE pool task mode", "deterministic simulation of pool operation histories (submit/RBF/remove/expire/evict/reorg) with hand-polled pool tasks; full recomputation of the pool's bookkeeping from a dump after every task",
    "After every completed pool task the dump of entries, links, edges, ancestor/descendant aggregates, per-status counters and totals is recomputed from the entries alone and compared; the ancestor limit and double-spend freedom are checked. Two genuine defects in the incremental aggregate maintenance were found and fixed."),
+ "C04": pool("§8 C04, §5 E-NODE pool task mode with probes", "deterministic simulation of pool/chain histories with boundary-value probe transactions evaluated through the real pool (dry-run accept) and through the node's block verification, against an independent rule evaluator over the reference model's context",
+   "At arbitrary points of seeded histories (reorgs, mined templates, pooled ancestors) probe transactions with exactly one field at/just before/just after a rule boundary (six since kinds and malformed encodings, cellbase maturity, capacity and occupied size, liveness/duplicates, cell and header deps, a witness-dependent lock) are judged by the pool and by block verification; the verdicts must equal the evaluator's in both directions. Exploration is the right level: contexts x probes is unbounded; boundaries are hit by construction because probes are built from the context at probe time."),
  "C12": pool("§8 C12, §5 E-NODE pool task mode", "deterministic simulation interleaving submissions (suspended at yield points), mined templates and model-built competing branches; pool vs reference-chain model at quiescent points",
    "At every quiescent point the pool must hold no committed transaction, no transaction whose input/dep is unknown to chain+pool, no double spend, and every entry's stage must equal the model's proposal-window membership. Three genuine defects (stale gap stage after reorg, expiry orphaning descendants, children of un-re-addable detached transactions) were found and fixed. The 'admissible detached txs are back' direction is not asserted."),
  "C13": pool("§8 C13, §5 E-NODE pool task mode", "deterministic simulation: templates requested at simulator-chosen instants are sealed and fed to the node's own chain stages; self-oracle plus independent model re-derivation",
